@@ -101,7 +101,7 @@ func (r *runningRoutine[K, V]) execute(
 	exitedCh chan struct{},
 	waitCh <-chan struct{},
 ) {
-	verifhook.Point("keyed.exec", r.k)
+	verifhook.Point("keyed.exec", r.key)
 	var err error
 	if waitCh != nil {
 		select {
@@ -138,6 +138,7 @@ func (r *runningRoutine[K, V]) execute(
 				dur := r.retryBo.NextBackOff()
 				if dur != backoff.Stop {
 					r.deferRetry = time.AfterFunc(dur, func() {
+						verifhook.Point("keyed.timer.retry", r.key)
 						verifhook.Point("keyed.lock", r.k)
 						r.k.mtx.Lock()
 						verifhook.Enter(r.k)
@@ -182,6 +183,7 @@ func (r *runningRoutine[K, V]) remove() {
 	}
 
 	timerCb := func() {
+		verifhook.Point("keyed.timer.remove", r.key)
 		verifhook.Point("keyed.lock", r.k)
 		r.k.mtx.Lock()
 		verifhook.Enter(r.k)
